@@ -18,7 +18,10 @@ PointsScen ==
         L \in 1..(MaxN + 2), bs \in 1..(MaxB + 2), dr \in BOOLEAN, sb \in BOOLEAN}
 DOScen ==
     {[kind |-> k, Nb |-> nb, Nt |-> nt, bb |-> bb, tb |-> tb, drop |-> FALSE, shufB |-> f[1], shufT |-> f[2],
-      d |-> <<>>, agg |-> <<>>, bb2 |-> 0] :
+      d |-> <<>>, agg |-> <<>>, bb2 |-> 0,
+      \* per-function layout: the trunk batch size of the data set is changed after the first epoch (the data set recomputes
+      \* its batch counts "for the case when the batch size changed") to another size within the data
+      tb2 |-> IF tb = -1 THEN 1 ELSE (tb % nt) + 1] :
         k \in {"shared", "unique"}, nb \in 1..MaxN, nt \in 1..MaxN, bb \in BSizes, tb \in BSizes,
         f \in {g \in BOOLEAN \X BOOLEAN : TRUE}}
 Scen == PointsScen \cup {s \in DOScen : FlagOK(s.Nb + 3 * s.Nt + 5 * s.bb + 7 * s.tb, s.shufB, s.shufT)}
